@@ -270,12 +270,14 @@ def _int_domain():
     return [z3.IntVal(i) for i in range(0, k + 1)]
 
 
-def forall_int(lo, hi, body, name="j"):
-    """forall j. lo <= j < hi -> body(j)"""
+def forall_int(lo, hi, body, name="j", pats=None):
+    """forall j. lo <= j < hi -> body(j)   (pats: j -> list of trigger terms)"""
     lo = _z(lo)
     hi = _z(hi)
     if CTX.scope is None:
         j = z3.Int(CTX.fresh(name))
+        if pats is not None:
+            return z3.ForAll([j], z3.Implies(z3.And(lo <= j, j < hi), body(j)), patterns=pats(j))
         return z3.ForAll([j], z3.Implies(z3.And(lo <= j, j < hi), body(j)))
     CTX.scope_constraints.append(z3.Implies(lo < hi, z3.And(lo >= 0, hi <= CTX.scope + 1)))
     return z3.And([z3.Implies(z3.And(lo <= c, c < hi), body(c)) for c in _int_domain()])
@@ -451,8 +453,14 @@ def eq_t(ty, x, y):
 # -- sets --------------------------------------------------------------------------------------
 # A set is an Array T Bool, or a *virtual* set (t is None, items = ('virt', membership function)).
 
-def svirt(elem_ty, memfn):
-    return V(Set(elem_ty), None, ("virt", memfn))
+def svirt(elem_ty, memfn, gen=None):
+    """gen = (list value, filter on element terms): the set is {l[j] | j < len(l), filter(l[j])} (used to state
+    emptiness over positions instead of over the whole element sort)."""
+    return V(Set(elem_ty), None, ("virt", memfn, gen))
+
+
+def sgen(s):
+    return s.items[2] if is_virt(s) and len(s.items) > 2 else None
 
 
 def is_virt(s):
@@ -495,27 +503,32 @@ def _bool_decl(kind):
 
 def _setop(a, b, f, mapdecl):
     assert a.ty == b.ty, (a.ty, b.ty)
-    if is_virt(a) or is_virt(b):
-        return svirt(a.ty.elem, lambda e, a=a, b=b: f(smem_t(a, e), smem_t(b, e)))
-    if CTX.scope is not None and CTX.enum_values(CTX.sort(a.ty.elem)) is not None:
+    if CTX.scope is not None and CTX.enum_values(CTX.sort(a.ty.elem)) is not None and not (is_virt(a) or is_virt(b)):
         r = z3.K(CTX.sort(a.ty.elem), z3.BoolVal(False))
         for c in CTX.enum_values(CTX.sort(a.ty.elem)):
             r = z3.Store(r, c, f(z3.Select(a.t, c), z3.Select(b.t, c)))
         return V(a.ty, r)
-    return V(a.ty, mapdecl(a.t, b.t))
+    # solver-neutral: a virtual set (membership formula); materialised with a pointwise axiom when stored
+    gen = None
+    if mapdecl in ("and", "diff"):
+        ga, gb = sgen(a), sgen(b)
+        if ga is not None:
+            gen = (ga[0], lambda x, ga=ga, b=b: z3.And(ga[1](x), smem_t(b, x) if mapdecl == "and" else z3.Not(smem_t(b, x))))
+        elif gb is not None and mapdecl == "and":
+            gen = (gb[0], lambda x, gb=gb, a=a: z3.And(gb[1](x), smem_t(a, x)))
+    return svirt(a.ty.elem, lambda e, a=a, b=b: f(smem_t(a, e), smem_t(b, e)), gen)
 
 
 def sunion(a, b):
-    return _setop(a, b, lambda x, y: z3.Or(x, y), lambda s, t: z3.Map(_bool_decl("or"), s, t))
+    return _setop(a, b, lambda x, y: z3.Or(x, y), "or")
 
 
 def sinter(a, b):
-    return _setop(a, b, lambda x, y: z3.And(x, y), lambda s, t: z3.Map(_bool_decl("and"), s, t))
+    return _setop(a, b, lambda x, y: z3.And(x, y), "and")
 
 
 def sdiff(a, b):
-    return _setop(a, b, lambda x, y: z3.And(x, z3.Not(y)),
-                  lambda s, t: z3.Map(_bool_decl("and"), s, z3.Map(z3.Not(z3.Bool("x")).decl(), t)))
+    return _setop(a, b, lambda x, y: z3.And(x, z3.Not(y)), "diff")
 
 
 def ssubset(a, b):
@@ -524,6 +537,10 @@ def ssubset(a, b):
 
 
 def sisempty(s):
+    g = sgen(s)
+    if g is not None:
+        lst, flt = g
+        return forall_int(0, llen(lst), lambda j: z3.Not(flt(z3.Select(larr(lst), j))))
     if is_virt(s):
         return forall_ty(s.ty.elem, lambda x: z3.Not(smem_t(s, x)))
     return s.t == sempty(s.ty.elem).t
@@ -539,7 +556,8 @@ def set_eq(a, b):
 def elems(lst):
     """Virtual set of the elements of a list."""
     ety = lst.ty.elem
-    return svirt(ety, lambda x, lst=lst: exists_int(0, llen(lst), lambda j: eq_t(ety, z3.Select(larr(lst), j), x)))
+    return svirt(ety, lambda x, lst=lst: exists_int(0, llen(lst), lambda j: eq_t(ety, z3.Select(larr(lst), j), x)),
+                 (lst, lambda x: z3.BoolVal(True)))
 
 
 def materialize(s):
